@@ -25,6 +25,9 @@ THEOREMS = [
     "C09_trie_invariant", "C09_trie_step_refines", "C09_trie_rebuild_is_replay", "C09_trie_find_leaf_agrees",
     "C09_trie_walkers_equal_flat", "C09_trie_allRegistrations_exact", "C09_trie_refines_flat",
     "C09_trie_lockstep_is_brun_without_rebuild",
+    "C09_trie_subscriber_leaf_key", "C09_trie_enumeration_is_permutation", "C09_trie_nested_rebuild_preserves",
+    "C09_trie_answers_ledger", "C09_trie_unambiguous_as_flat", "C09_rebuild_order_irrelevant_for_unambiguous",
+    "C09_regsys_reachable_inv",
 ]
 RULE = ("1-2 base-less registries (both flavours) over a generated interface/class world; keys come in "
         "families sharing a required prefix and differing in provided / name / last required; values 1..6 "
@@ -583,7 +586,7 @@ LEVEL_TEXT = ("Machine-checked theorems (Properties/C09.v, closed under the glob
               "after every mutation, and the exact enumeration order; the implementation's raw answers are judged by "
               "the ledger inside Coq.")
 LEVEL_NOTE = ("Trusted: Coq kernel/vm_compute; the hand-written registry models (tied to the code by the correspondence, "
-              "incl. layout) and the harness.  Partial: that the nested enumeration is a permutation of the flat "
-              "listing (needed to identify the lockstep flat run with the plain one THROUGH rebuild()) is checked per "
-              "run, not proved.  Unambiguous = at most one applicable provided interface carries an entry under each "
+              "incl. layout) and the harness.  The nested enumeration is proved to be a NoDup-key permutation of the "
+              "flat listing keeping per-key order, so the nested run is identified with the plain flat run and the "
+              "ledger through rebuild().  Unambiguous = at most one applicable provided interface carries an entry under each "
               "required-key tuple.")
